@@ -128,7 +128,52 @@ def scenario_smoothing():
     return spec, base, evaluators, ops
 
 
-SCENARIOS = {'phylo': scenario_phylo, 'smoothing': scenario_smoothing}
+def scenario_timetree():
+    """plain TimeTreeModel (internal heights as the parameter), per-branch clock, CTMC scale prior, skyride"""
+    taxa = cm.taxa_json(N)
+    tree = cm.time_tree_json(((0, 1), 2), N)
+    tree['taxa'] = taxa
+    spec = [
+        {'id': 'like', 'type': 'TreeLikelihoodModel', 'tree_model': tree,
+         'site_model': {'id': 'site', 'type': 'InvariantSiteModel', 'invariant': {'id': 'pinv', 'type': 'Parameter', 'tensor': [0.2]},
+                        'mu': {'id': 'mu', 'type': 'Parameter', 'tensor': [1.3]}},
+         'substitution_model': {'id': 'subst', 'type': 'HKY', 'kappa': {'id': 'kappa', 'type': 'Parameter', 'tensor': [2.0]},
+                                'frequencies': {'id': 'freqs', 'type': 'Parameter', 'tensor': [0.1, 0.2, 0.3, 0.4]}},
+         'branch_model': {'id': 'clock', 'type': 'SimpleClockModel', 'tree_model': 'tree',
+                          'rate': {'id': 'rate', 'type': 'Parameter', 'tensor': [0.01, 0.02, 0.015, 0.03]}},
+         'site_pattern': {'id': 'sp', 'type': 'SitePattern', 'alignment': cm.alignment_json(SEQS, taxa='taxa')}},
+        {'id': 'coal', 'type': 'PiecewiseConstantCoalescentModel', 'theta': {'id': 'theta', 'type': 'Parameter', 'tensor': [2.0, 3.0]},
+         'tree_model': 'tree'},
+        {'id': 'ctmc', 'type': 'CTMCScale', 'x': 'rate', 'tree_model': 'tree'},
+        {'id': 'joint', 'type': 'JointDistributionModel', 'distributions': ['like', 'coal', 'ctmc']},
+    ]
+    base = {'tree.heights': [1.0, 2.5], 'pinv': [0.2], 'mu': [1.3], 'kappa': [2.0], 'freqs': [0.1, 0.2, 0.3, 0.4],
+            'rate': [0.01, 0.02, 0.015, 0.03], 'theta': [2.0, 3.0]}
+    evaluators = {
+        'joint()': lambda D: D['joint'](),
+        'like()': lambda D: D['like'](),
+        'coal()': lambda D: D['coal'](),
+        'ctmc()': lambda D: D['ctmc'](),
+        'tree.node_heights': lambda D: D['tree'].node_heights,
+        'tree.branch_lengths()': lambda D: D['tree'].branch_lengths(),
+        'site.probabilities()': lambda D: D['site'].probabilities(),
+        'site.rates()': lambda D: D['site'].rates(),
+        'subst.kappa': lambda D: D['subst'].kappa,
+        'clock.rates': lambda D: D['clock'].rates,
+    }
+    ops = {
+        'assign internal heights': ('assign', 'tree.heights', (0.5, 6.0)),
+        'in-place write into internal heights + fire_parameter_changed': ('inplace', 'tree.heights', (0.5, 6.0)),
+        'assign per-branch clock rates': ('assign', 'rate', (0.001, 0.1)),
+        'assign theta': ('assign', 'theta', (0.2, 5.0)),
+        'assign pinv': ('assign', 'pinv', (0.05, 0.6)),
+        'assign mu': ('assign', 'mu', (0.3, 3.0)),
+        'assign kappa': ('assign', 'kappa', (0.5, 9.0)),
+    }
+    return spec, base, evaluators, ops
+
+
+SCENARIOS = {'phylo': scenario_phylo, 'smoothing': scenario_smoothing, 'timetree': scenario_timetree}
 
 
 # ------------------------------------------------------------------ machinery
@@ -164,6 +209,7 @@ def build(name):
     import torchtree.distributions.distributions  # noqa (class registration)
     import torchtree.distributions.joint_distribution  # noqa
     import torchtree.distributions.gmrf  # noqa
+    import torchtree.distributions.ctmc_scale  # noqa
     import torchtree.evolution.coalescent  # noqa
     import torchtree.evolution.substitution_model.codon  # noqa
     import torchtree.evolution.tree_likelihood  # noqa
@@ -185,6 +231,8 @@ def fresh_values(counter, pname, shape, rng):
         n *= s
     k = next(counter)
     vals = [lo + (hi - lo) * ((0.37 + 0.61803 * (k * 7 + i)) % 1.0) for i in range(n)]
+    if pname == 'tree.heights':
+        vals = sorted(vals)
     return new_vars(f'v{k}_{pname}', torch.tensor(vals, dtype=torch.float64).reshape(shape))
 
 
@@ -352,6 +400,7 @@ def replay_history(scen, history, vals):
     import torchtree.distributions.distributions  # noqa
     import torchtree.distributions.joint_distribution  # noqa
     import torchtree.distributions.gmrf  # noqa
+    import torchtree.distributions.ctmc_scale  # noqa
     import torchtree.evolution.coalescent  # noqa
     import torchtree.evolution.substitution_model.codon  # noqa
     import torchtree.evolution.tree_likelihood  # noqa
@@ -436,6 +485,8 @@ def tasks_for(tier):
             # every operation appears as first and as second element; pairs touching different holders
             sel = [pr for k, pr in enumerate(pairs) if (k * 7) % 5 == 0 or pr[0] == pr[1]]
             pairs = sel[:40] if scen == 'phylo' else sel[:20]
+            if scen == 'timetree':
+                pairs = list(itertools.product(ops, ops))[::2][:24]
         for pr in pairs:
             ts.append((scen, pr))
         if tier == 'thorough':
